@@ -13,6 +13,9 @@ PY_BUILTINS = {'len', 'min', 'max', 'abs', 'range', 'enumerate', 'reversed', 'so
 
 
 def liftable(py):
+    import enum
+    if isinstance(py, enum.Enum):
+        return True
     if py is None or isinstance(py, (bool, int, float, str)):
         return True
     if isinstance(py, tuple):
@@ -21,6 +24,9 @@ def liftable(py):
 
 
 def lift(py):
+    import enum
+    if isinstance(py, enum.Enum):
+        return VStr('%s.%s' % (type(py).__name__, py.name))      # enum members: distinct opaque constants
     if py is None:
         return VNone
     if isinstance(py, bool):
